@@ -183,3 +183,131 @@ func c11Extras3(c *Ctx) {
 		}
 	}
 }
+
+// sigParamsTableRule: when signingParamsForPublicKey honours a requested algorithm it takes the OID and the digest
+// from the same row of signatureAlgorithmDetails: on every path from the store of row.oid into sigAlgo.Algorithm to
+// a return, the returned hash is row.hash.
+func sigParamsTableRule(c *Ctx, fnName string) {
+	w := c.W
+	fn := w.Fn(fnName)
+	if fn == nil {
+		c.Undecided("R-PROV", short(fnName), "anchor", "-", "not found")
+		return
+	}
+	n := 0
+	for _, b := range fn.Blocks {
+		for _, in := range b.Instrs {
+			st, ok := in.(*ssa.Store)
+			if !ok {
+				continue
+			}
+			fa, ok := st.Addr.(*ssa.FieldAddr)
+			if !ok || fieldLeaf(fieldName(fa)) != "Algorithm" {
+				continue
+			}
+			ev := Expr(st.Val)
+			if !strings.HasSuffix(ev, ".oid") {
+				continue
+			}
+			n++
+			c.Sites++
+			want := strings.TrimSuffix(ev, ".oid") + ".hash"
+			c.Cut(CutSpec{Rule: "R-PROV", Fn: fn, Label: fmt.Sprintf("the digest returned for a requested algorithm (#%d) is the hash of the table row whose OID was written", n), StartAfter: in, MinTargets: -1,
+				Target: func(i2 ssa.Instruction, res resolver) bool {
+					rt, ok := i2.(*ssa.Return)
+					if !ok || len(rt.Results) < 3 {
+						return false
+					}
+					if e := res(unspill(rt, 2)); !isNilConst(e) && definitelyNonNil(e) {
+						return false
+					}
+					return Expr(res(unspill(rt, 0))) != want
+				}, Cut: func(Fact) bool { return false }})
+		}
+	}
+	c.Check(n >= 1, "R-PROV", short(fnName), "store of the requested algorithm's OID found", w.Pos(fn.Pos()), fmt.Sprint(n))
+}
+
+// c18Extras3: parseField may report "nothing consumed, no error" (an absent OPTIONAL element) only after
+// setDefaultValue accepted the field, so that a DEFAULT the encoder omitted is installed again at all three sites.
+func c18Extras3(c *Ctx) {
+	w := c.W
+	fn := w.Fn("z/encoding/asn1.parseField")
+	if fn == nil {
+		c.Undecided("R-SIBLING", "encoding/asn1.parseField", "anchor", "-", "not found")
+		return
+	}
+	var initOff *ssa.Parameter
+	for _, p := range fn.Params {
+		if p.Name() == "initOffset" {
+			initOff = p
+		}
+	}
+	n := len(callsIn(fn, "z/encoding/asn1.setDefaultValue"))
+	c.Sites++
+	c.Check(initOff != nil && n >= 3, "R-SIBLING", "encoding/asn1.parseField", "the three absent-element sites (end of data, explicit tag mismatch, tag mismatch) call setDefaultValue", w.Pos(fn.Pos()), fmt.Sprint(n))
+	if initOff == nil {
+		return
+	}
+	succ := SuccessReturn(1, nil)
+	c.Cut(CutSpec{Rule: "R-SIBLING", Fn: fn, Label: "returns the initial offset without error (element absent) only past setDefaultValue(v, params) == true", MinTargets: -1,
+		Target: func(in ssa.Instruction, res resolver) bool {
+			rt, ok := in.(*ssa.Return)
+			if !ok || len(rt.Results) != 2 {
+				return false
+			}
+			return res(unspill(rt, 0)) == ssa.Value(initOff) && succ(in, res)
+		},
+		Cut: func(f Fact) bool {
+			cl := callOf(f.X)
+			return f.Op == "true" && cl != nil && strings.HasSuffix(calleeName(&cl.Call), "asn1.setDefaultValue")
+		}})
+}
+
+// c19Extras3: the long-form length accumulator of parseTagAndLength is shifted up by eight bits only past a test that
+// it is below 2^23 (otherwise high octets of an over-long length are shifted out and only the wrapped value is
+// range- and minimality-checked).
+func c19Extras3(c *Ctx) {
+	w := c.W
+	fn := w.Fn("z/encoding/asn1.parseTagAndLength")
+	if fn == nil {
+		c.Undecided("R-VSET", "encoding/asn1.parseTagAndLength", "anchor", "-", "not found")
+		return
+	}
+	n := 0
+	for _, b := range fn.Blocks {
+		for _, in := range b.Instrs {
+			bo, ok := in.(*ssa.BinOp)
+			if !ok || bo.Op != token.SHL || !strings.HasSuffix(Expr(bo.X), ".length") {
+				continue
+			}
+			n++
+			c.Sites++
+			acc := Expr(bo.X)
+			c.Cut(CutSpec{Rule: "R-VSET", Fn: fn, Label: fmt.Sprintf("the length accumulator is shifted (#%d) only past a test that it is below 2^23 (no octet of an over-long length is shifted out)", n), MinTargets: -1,
+				Target: func(i2 ssa.Instruction, _ resolver) bool { return i2 == ssa.Instruction(bo) },
+				Cut: func(f Fact) bool {
+					if f.Op != "lt" || f.Y == nil || Expr(f.X) != acc {
+						return false
+					}
+					k, ok := f.Y.(*ssa.Const)
+					if !ok || k.Value == nil {
+						return false
+					}
+					v, exact := constantInt64(k)
+					return exact && v > 0 && v <= 1<<23
+				}})
+		}
+	}
+	c.Check(n >= 1, "R-VSET", "encoding/asn1.parseTagAndLength", "shift of the length accumulator found", w.Pos(fn.Pos()), fmt.Sprint(n))
+}
+
+func constantInt64(k *ssa.Const) (int64, bool) {
+	if k == nil || k.Value == nil {
+		return 0, false
+	}
+	s := k.Value.ExactString()
+	var v int64
+	_, err := fmt.Sscan(s, &v)
+	return v, err == nil
+}
